@@ -133,6 +133,98 @@ def gen_dispatch_reject(tier):
     return h
 
 
+# ------------------------------------------------------------------------------------------------ matrices and reshape
+def _elem_oracle(f, t, k):
+    """the scalar rule applied to element k: `a[k]` converted must be `rd(k)`"""
+    o = ["{ let v: %s = a[%d]; let out: %s = rd(%d);" % (f, k, t, k)]
+    o += ["  " + x for x in oracle(f, t)]
+    if f == t:
+        o.append("  assert!(%s, \"VP:representable-value-changed\");" % eq_expr(t, "out", "v"))
+    o.append("}")
+    return o
+
+
+def gen_mat(fn, f, t, sform, shape, dims, tier):
+    """fn in {convert, reshape}: create_convert_mat_to_mat / create_reshape_mat_to_mat ::<f,t>(Matrix<f>, &dims) -> solve -> out"""
+    from .c03 import extract
+    R, C = shape
+    N = R * C
+    R2, C2 = dims
+    real = "create_%s_mat_to_mat" % fn
+    b = [sym_array(f, "a", N),
+         "let sc = Ref::new(%s);" % mk_form(sform, f, "a", shape),
+         "let m: Matrix<%s> = Matrix::%s(sc.clone());" % (f, SHAPE_IDENT[sform]),
+         "let dims: [usize; 2] = [%d, %d];" % (R2, C2),
+         "kani::cover!(true, \"VP:reached-call\");",
+         "match %s::<%s, %s>(m, &dims[..]) {" % (real, f, t),
+         "  Err(e) => { forget(e); assert!(false, \"VP:conversion-rejected\"); }",
+         "  Ok(fx) => {",
+         "    fx.solve();",
+         "    let v = fx.out();",
+         "    " + extract(t, ""),
+         "    assert!(rows == %d && cols == %d, \"VP:wrong-shape\");" % (R2, C2),
+         "    if rows * cols == %d {" % N]
+    for k in range(N):
+        b += ["      " + x for x in _elem_oracle(f, t, k)]
+    b += ["    }",
+          "    { let s = sc.borrow(); assert!(%s, \"VP:source-modified\"); }" % " && ".join(eq_expr(f, "s[%d]" % q, "a[%d]" % q) for q in range(N)),
+          "    kani::cover!(true, \"VP:reached\");",
+          "    forget(v); forget(fx);", "  }", "}", "forget(sc);"]
+    name = "c12_mat_%s_%s_%s_%s%dx%d_to_%dx%d" % (fn, f, t, sform.lower(), R, C, R2, C2)
+    h = H(name, "    " + "\n    ".join(b), WHERE_MM, domain="accept", key="mat/%s<%s,%s>/%s%dx%d->%dx%d" % (real, f, t, sform, R, C, R2, C2),
+          desc="%s::<%s,%s> on a symbolic %dx%d %s with target shape %dx%d: accepted, result has the target shape, element k (column-major) "
+               "is element k of the source converted by the scalar rule, source unchanged" % (real, f, t, R, C, sform, R2, C2),
+          functions=["%s (src/interpreter/src/stdlib/convert/mat_to_mat.rs: storage-form table, output allocation)" % real,
+                     "ConvertMatToMat2::solve/out via dyn MechFunction", "LosslessInto<%s> for %s" % (t, f)],
+          bounds="source %dx%d, all element values" % (R, C), unwind=N + 2, tier=tier, group="mat", solver="kissat")
+    h.slice = SLICE
+    h.heavy = True
+    return h
+
+
+def gen_mat_dispatch(f, t, sform, shape, dims, domain, tier):
+    """L2: impl_conversion_mat_to_mat_fxn(Value::Matrix<F>(..), ValueKind::Matrix(Box<T>, dims))"""
+    from .c03 import extract
+    R, C = shape
+    N = R * C
+    fv, tv = TY_VARIANT[f], TY_VARIANT[t]
+    dimtxt = "vec![%s]" % ", ".join(str(d) for d in dims)
+    b = [sym_array(f, "a", N),
+         "let sc = Ref::new(%s);" % mk_form(sform, f, "a", shape),
+         "let sv = %s;" % value_of(sform, f, "sc.clone()"),
+         "let tk = ValueKind::Matrix(Box::new(ValueKind::%s), %s);" % (tv, dimtxt),
+         "kani::cover!(true, \"VP:reached-call\");",
+         "match impl_conversion_mat_to_mat_fxn(sv, tk) {"]
+    if domain == "accept":
+        R2, C2 = dims if dims else shape
+        b += ["  Err(e) => { forget(e); assert!(false, \"VP:conversion-rejected\"); }",
+              "  Ok(fx) => {", "    fx.solve();", "    let v = fx.out();", "    " + extract(t, ""),
+              "    assert!(rows == %d && cols == %d, \"VP:wrong-shape\");" % (R2, C2),
+              "    if rows * cols == %d {" % N]
+        for k in range(N):
+            b += ["      " + x for x in _elem_oracle(f, t, k)]
+        b += ["    }", "    kani::cover!(true, \"VP:reached\");", "    forget(v); forget(fx);", "  }", "}"]
+    else:
+        b += ["  Err(e) => { kani::cover!(true, \"VP:rejected-err\"); forget(e); }",
+              "  Ok(fx) => { fx.solve(); let v = fx.out(); assert!(false, \"VP:reshape-to-different-element-count-accepted\"); forget(v); forget(fx); }",
+              "}"]
+    b.append("forget(sc);")
+    name = "c12_l2_mat_%s_%s_%s%dx%d_to_%s_%s" % (f, t, sform.lower(), R, C, "x".join(str(d) for d in dims) or "same", domain)
+    h = H(name, "    " + "\n    ".join(b), WHERE_MM, domain=domain,
+          key="L2/impl_conversion_mat_to_mat_fxn/%s->%s/%s%dx%d->%s/%s" % (f, t, sform, R, C, "x".join(str(d) for d in dims) or "same", domain),
+          desc=("impl_conversion_mat_to_mat_fxn on a %dx%d %s %s annotated <[%s]:%s>: " % (R, C, f, sform, t, ",".join(str(d) for d in dims))) +
+               ("accepted, target shape, elements in column-major order converted by the scalar rule" if domain == "accept"
+                else "a shape with a different element count is an error, never a value"),
+          functions=["impl_conversion_mat_to_mat_fxn (src/interpreter/src/stdlib/convert/mat_to_mat.rs: element-count test, kind table)",
+                     "create_convert_mat_to_mat / create_reshape_mat_to_mat", "ConvertMatToMat2::solve/out"],
+          bounds="source %dx%d, all element values" % (R, C), unwind=N + 2, tier=tier, group="L2mat", solver="kissat")
+    # the 12-kind slice instantiates create_convert/create_reshape 144 times: goto-instrument runs out of 9 GB.  Only the kinds under test:
+    from .c03 import SLICE_BASE
+    h.slice = ",".join(dict.fromkeys(SLICE_BASE + [f, t]))
+    h.heavy = True
+    return h
+
+
 def plan(tier, seed):
     hs = []
     pairs = [(f, t) for f in NUM for t in NUM]
@@ -155,6 +247,20 @@ def plan(tier, seed):
         for k, (f, t) in enumerate(l2):
             hs.append(gen_dispatch(f, t, "quick" if k == seed % len(l2) else "thorough"))
         hs.append(gen_dispatch_reject("quick"))
+    # matrices: same kind, widening, float -> integer; every storage form
+    mats = [("convert", "f64", "f64", "MD", (2, 2), (2, 2)), ("convert", "u8", "u16", "RD", (1, 3), (1, 3)), ("convert", "f64", "u8", "VD", (3, 1), (3, 1)),
+            ("convert", "i16", "f64", "MD", (2, 3), (2, 3)), ("convert", "i64", "i8", "RD", (1, 2), (1, 2)), ("convert", "u8", "u8", "VD", (2, 1), (2, 1)),
+            ("reshape", "f64", "f64", "MD", (2, 3), (3, 2)), ("reshape", "f64", "f64", "MD", (2, 2), (4, 1)), ("reshape", "f64", "f64", "MD", (2, 2), (1, 4)),
+            ("reshape", "f64", "f64", "RD", (1, 4), (2, 2)), ("reshape", "f64", "f64", "RD", (1, 3), (3, 1)), ("reshape", "f64", "f64", "VD", (4, 1), (2, 2)),
+            ("reshape", "f64", "f64", "VD", (3, 1), (1, 3)), ("reshape", "u8", "u16", "MD", (2, 3), (6, 1)), ("reshape", "f64", "u8", "RD", (1, 6), (2, 3)),
+            ("reshape", "u8", "u8", "VD", (6, 1), (3, 2)), ("reshape", "i16", "f64", "MD", (3, 2), (1, 6))]
+    qm = {0, 6, 9, 11}
+    for k, (fn, f, t, sf, sh, dm) in enumerate(mats):
+        hs.append(gen_mat(fn, f, t, sf, sh, dm, "quick" if (k in qm or k % 5 == seed % 5) else "thorough"))
+    l2m = [("f64", "f64", "MD", (2, 3), (3, 2), "accept"), ("f64", "f64", "MD", (2, 3), (2, 2), "reject"), ("f64", "f64", "RD", (1, 4), (2, 3), "reject"),
+           ("u8", "u16", "VD", (3, 1), (), "accept"), ("f64", "f64", "MD", (2, 2), (5, 1), "reject")]
+    for k, (f, t, sf, sh, dm, dom) in enumerate(l2m):
+        hs.append(gen_mat_dispatch(f, t, sf, sh, dm, dom, "quick" if k < 2 else "thorough"))
     return {
         "harnesses": hs,
         "explanation": "Kani/CBMC over the conversion structs (ConvertScalarToScalar / ConvertScalarToScalarBasic with their LosslessInto / "
